@@ -84,10 +84,14 @@ def main(argv):
         print(json.dumps(meta, indent=1))
         dest = os.path.join(VERIF, 'seeded', sid)
         os.makedirs(dest, exist_ok=True)
-        shutil.copy(patch, os.path.join(dest, 'patch.diff'))
-        shutil.copy(demo, os.path.join(dest, 'demo.py'))
+        def cp(src, name):
+            dst = os.path.join(dest, name)
+            if os.path.abspath(src) != os.path.abspath(dst):
+                shutil.copy(src, dst)
+        cp(patch, 'patch.diff')
+        cp(demo, 'demo.py')
         if note and os.path.exists(note):
-            shutil.copy(note, os.path.join(dest, 'note.txt'))
+            cp(note, 'note.txt')
             with open(note, encoding='utf-8') as f:
                 meta['needs'] = f.read().strip()
         with open(os.path.join(dest, 'meta.json'), 'w', encoding='utf-8') as f:
